@@ -251,6 +251,8 @@ func C19(c *Ctx) {
 			jobs = append(jobs, job{name + "+entrypoints: " + gast.Short(g), text, []string{"-support-left-recursion", "-alternate-entrypoints", strings.Join(names, ",")}, len(g.Rules)})
 		}
 	}
+	jobs = append(jobs, job{"raw: blocks using packages the initializer does not import", []byte("{\npackage p\n}\n\nS <- a:W b:N !. { return strings.ToUpper(a.(string)) + strconv.Itoa(b.(int)), nil }\nW <- [a-z]+ { return string(c.text), nil }\nN <- [0-9]+ { return len(c.text), nil }\n"), nil, 3},
+		job{"raw: blocks using packages the initializer does not import", []byte("{\npackage p\n}\n\nS <- a:W b:N !. { return strings.ToUpper(a.(string)) + strconv.Itoa(b.(int)), nil }\nW <- [a-z]+ { return string(c.text), nil }\nN <- [0-9]+ { return len(c.text), nil }\n"), []string{"-optimize-parser"}, 3})
 	for _, g := range c19Strata() {
 		add("stratum", g, 6) // once multi-line ...
 		add("stratum", g, 6) // ... and once with all rules on one line, under every flag set
@@ -297,7 +299,13 @@ func C19(c *Ctx) {
 		if first.Exit == 0 && !hasFlag(j.flags, "-o") && !hasFlag(j.flags, "-x") {
 			// the same command writing to -o FILE, where FILE holds what an earlier, larger generation left
 			// there: the file is a function of text and flags, not of what the path held before
-			of := filepath.Join(c.W.Dir, fmt.Sprintf("c19-out-%d.go", i))
+			// (the destination directory holds another file of the same package that declares identifiers
+			// named like standard packages: what stands next to FILE does not matter either)
+			od := filepath.Join(c.W.Dir, fmt.Sprintf("c19o%d", i))
+			os.MkdirAll(od, 0o755)
+			defer os.RemoveAll(od)
+			os.WriteFile(filepath.Join(od, "sibling.go"), []byte("package p\n\ntype fakePkg struct{}\n\nfunc (fakePkg) ToUpper(s string) string { return s }\nfunc (fakePkg) Itoa(int) string { return \"\" }\n\nvar strings, strconv, log, sort = fakePkg{}, fakePkg{}, fakePkg{}, fakePkg{}\n"), 0o644)
+			of := filepath.Join(od, "parser.go")
 			os.WriteFile(of, append(append([]byte{}, first.Stdout...), []byte(strings.Repeat("// left over from an earlier, larger generation\nvar _ = 0\n", 300))...), 0o644)
 			ro := c.W.RunPigeon(c.W.Pigeon, j.text, 60*time.Second, nil, append(append([]string{}, j.flags...), "-o", of)...)
 			got, _ := os.ReadFile(of)
